@@ -718,8 +718,8 @@ theorem SysFx.init_setIbs (n sr ibs k : Nat) (e : SysFx α n) :
 end init
 
 /-- `SysFx.step` is the effect step of the whole-system component record -/
-theorem sysComps_fxStep (fuel n : Nat) : (sysComps fuel n : Comps ℝ (SysSnd ℝ) (SysFx ℝ n) Unit).fxStep = SysFx.step := rfl
-theorem sysComps_fxStart (fuel n : Nat) : (sysComps fuel n : Comps ℝ (SysSnd ℝ) (SysFx ℝ n) Unit).fxStart = SysFx.start := rfl
+theorem sysComps_fxStep (fuel n : Nat) : (sysComps fuel n : Comps ℝ (SysSnd ℝ) (SysFx ℝ n) (SysSpatial ℝ)).fxStep = SysFx.step := rfl
+theorem sysComps_fxStart (fuel n : Nat) : (sysComps fuel n : Comps ℝ (SysSnd ℝ) (SysFx ℝ n) (SysSpatial ℝ)).fxStart = SysFx.start := rfl
 
 /-! ## no command pending (`on_start_processing` is the identity), to any depth -/
 
